@@ -4,7 +4,9 @@
 (* code -> spec).  The driver issues calls on a real breaker from several  *)
 (* goroutines at a frozen virtual clock, with a seeded coin, and logs      *)
 (*     reset                      a fresh breaker (quiescent)              *)
-(*     inv   p api oc             goroutine p starts a call of that kind   *)
+(*     inv   p api oc n           goroutine p starts a call of that kind   *)
+(*                                (n = the acceptable-predicate, see       *)
+(*                                Breaker.tla)                             *)
 (*     coin  pm ans               the coin is asked about probability      *)
 (*                                pm/10^6 (> 0) and answers ans            *)
 (*     req   p                    the protected function starts (for Allow:*)
@@ -37,7 +39,7 @@ VARIABLES l,     \* index of the next event
 vars == <<l, s, t, pc>>
 
 \* the tables and the threshold of the abstract specification, with the code's constants
-B == INSTANCE Breaker WITH Names <- {}, RegNames <- {}, Size <- 40, Q <- 4, K2 <- 3, Prot <- 5, Kinds <- {},
+B == INSTANCE Breaker WITH Names <- {}, RegNames <- {}, Size <- 40, Q <- 4, K2 <- 3, Prot <- 5, GrpcUnwraps <- FALSE, Kinds <- {},
                            st <- <<>>, out <- <<>>
 
 Procs == 0..15
@@ -66,7 +68,7 @@ Age ==
 
 Inv ==
   /\ Is("inv") /\ pc[Ev.p] = Idle
-  /\ SetPc(Ev.p, [s |-> "inv", k |-> B!Kd(Ev.api, Ev.oc, 0)])
+  /\ SetPc(Ev.p, [s |-> "inv", k |-> B!Kd(Ev.api, Ev.oc, Ev.n)])
   /\ UNCHANGED <<s, t>> /\ Consume
 
 Read(p) ==                                   \* internal
